@@ -1409,6 +1409,38 @@ impl Graph {
     }
 }
 
+/// Verification hooks (used by the checkers in /verif). Not part of the API.
+#[cfg(rten_verif)]
+impl Graph {
+    /// Execute an explicitly given operator sequence, exactly as [`run`](Self::run)
+    /// executes the sequence chosen by the planner. This lets a harness run
+    /// every valid ordering of a plan, not only the planner's.
+    pub fn verif_run_plan(
+        &self,
+        inputs: Vec<(NodeId, ValueOrView)>,
+        plan: &[NodeId],
+        outputs: &[NodeId],
+        weight_cache: Option<&WeightCache>,
+        opts: Option<RunOptions>,
+    ) -> Result<Vec<Value>, RunError> {
+        self.validate_inputs(&inputs)?;
+        let opts = opts.unwrap_or_default();
+        opts.thread_pool().run(|| {
+            let pool = BufferPool::new();
+            self.run_plan(
+                inputs,
+                plan,
+                outputs,
+                None, /* captures */
+                &pool,
+                weight_cache,
+                None, /* profiler */
+                &opts,
+            )
+        })
+    }
+}
+
 impl Default for Graph {
     fn default() -> Self {
         Self::new()
